@@ -11,7 +11,7 @@ T = {
          "Trusts the kernel's loopback of local multicast on eth0, per-sender ordering on loopback, and the membership model of Linux source filters (operations that trigger the kernel's mode switch on an empty source list are not generated); known finding loop-getter-initial is probed and excluded.",
          "model-based and round-trip property-based testing over real UDP/multicast sockets (rapid)", "DESIGN.md §4 C12"),
  "C13": ("fault_enumeration",
-         "Fault enumeration plus property testing: (a) for every constructor the k-th descriptor allocation is made to fail with EMFILE for every k below what success needs (descriptor table filled, k slots freed), plus refused/conflicting/unroutable/failing-option/bad-response faults, each followed by a /proc/self/fd census comparison - the table is enumerated completely; (b) rapid-generated histories of repeated Close interleaved with creation of other objects check that only owned descriptors are ever closed (census + inode identity of every other live object); (c) rapid-generated garbage-collection points while reads and/or writes are deferred and the program holds no reference (finalizer sentinels captured by the callbacks); (d) chains of objects each created inside the completion callback of its predecessor, which closes itself there (the new object gets the recycled descriptor number); (e) objects closed after their IO was closed (the object's own descriptor must be released whatever the poller answers); (f) websocket sessions on one Stream ended with CloseNextLayer and restarted from inside or after the cancelled callbacks: the ended session's socket must be gone, the next one's open and usable.",
+         "Fault enumeration plus property testing: (a) for every constructor the k-th descriptor allocation is made to fail with EMFILE for every k below what success needs (descriptor table filled, k slots freed), plus refused/conflicting/unroutable/failing-option/bad-response faults, each followed by a /proc/self/fd census comparison - the table is enumerated completely; (b) rapid-generated histories of repeated Close interleaved with creation of other objects check that only owned descriptors are ever closed (census + inode identity of every other live object); (c) rapid-generated garbage-collection points while reads and/or writes are deferred and the program holds no reference (finalizer sentinels captured by the callbacks); (d) chains of objects each created inside the completion callback of its predecessor, which closes itself there (the new object gets the recycled descriptor number); (e) every kind of object created on, and released from, descriptor number 0; (f) objects closed after their IO was closed (the object's own descriptor must be released whatever the poller answers); (g) websocket sessions on one Stream ended with CloseNextLayer and restarted from inside or after the cancelled callbacks: the ended session's socket must be gone, the next one's open and usable.",
          "Trusts /proc/self/fd, fstat inode identity and Go finalizers after forced double collection; websocket handshakes are explored with EMFILE at k=0 only (an in-process server competes for freed slots otherwise); GC points are sampled at operation boundaries.",
          "fault enumeration (EMFILE at the k-th allocation, protocol faults) + stateful property-based testing (rapid)", "DESIGN.md §4 C13"),
  "C17": ("exploration",
